@@ -73,6 +73,13 @@ def oracle_copy(chk, case, view, n):
     keys = [(r[0], r[1]) for r in sel]
     clash = len(set(keys)) != len(keys) or (set(keys) & {(r[0], r[1]) for r in dest0})
     what = None
+    if n is not None and tasks is not None and len(set(tasks)) != len(tasks) and not (set(keys) & {(r[0], r[1]) for r in dest0}):
+        # a task LISTED TWICE (compute_tasks_to_archive never does that: C11_traverse_nodup): the sources load its rows twice and meet
+        # the primary key; an implementation that loads them once copies exactly the selection -- that is no violation of the property
+        # (the correspondence with the model, which mirrors the sources, still reports the difference, without claiming an input)
+        once = [r for i, r in enumerate(sel) if (r[0], r[1]) not in keys[:i]]
+        if sorted(view, key=repr) == sorted(list(dest0) + once, key=repr) and n == len(once):
+            return
     if n is None:
         if not clash:
             what = "IntegrityError although the selected rows are pairwise distinct and absent from the destination"
@@ -104,6 +111,11 @@ def copy_cases(chk, tier):
                 for tasks in tasksets:
                     for latest in (False, True):
                         cases.append((s, dest0, tasks, latest))
+    # a closure larger than any plausible internal batch size (seed C11/j dropped every 100th task of a batched query)
+    big = [("//big:t%03d" % i, 1 + i % 3, None, 0) for i in range(230)]
+    for latest in (False, True):
+        cases.append((big, [], [r[0] for r in big], latest))
+    cases.append((big, [], [r[0] for r in big[::-1]] + ["//:none"], False))
     pool = ["//:a", "//:b", "//s:a", "//s/t:c", "//x-y/z_1:T-2"]
     commits = [None, "ab12", "ff00ff00ff00ff00ff00ff00ff00ff00ff00ff00"]
     n_rand = 250 if tier == "quick" else 3000
